@@ -1,7 +1,7 @@
 (* Properties_C03.v -- C03: string producers never leave dest unterminated
    Only theorem statements, each closed by [exact <lemma>], with Print Assumptions beneath. *)
 From Coq Require Import List ZArith Lia Bool.
-From SC Require Import Base Wp Cfg Comb CombProofs CopySpec ModStr ModMem ProofsStr ProofsMem SpecStr SpecMem PropStr FnProps PropDefs.
+From SC Require Import Base Wp Cfg Comb CombProofs CopySpec ModStr ModMem ModExt ProofsStr ProofsMem SpecStr SpecMem SpecExt PropStr FnProps PropDefs.
 From SC.Gen Require Import Consts.
 Import ListNotations.
 Local Open Scope Z_scope.
@@ -35,6 +35,10 @@ Theorem C03_strncat_s : forall (c : cfg) (d dmax s slen destbos srcbos : Z) (m :
 Proof. exact strncat_s_C03. Qed.
 Print Assumptions C03_strncat_s.
 
+(* strnterminate_s: always terminated within dmax, at the first NUL or at dmax-1; returns the length kept; nothing else changes *)
+Theorem C03_strnterminate_s : forall c d dmax m, d <> 0 -> 1 <= dmax <= rmax_str c -> wp (strnterminate_s c d dmax BOS_UNKNOWN) m (fun r m' => 0 <= r < dmax /\ (forall i, 0 <= i < r -> m (d + i) <> 0) /\ (r < dmax - 1 -> m (d + r) = 0) /\ m' (d + r) = 0 /\ (forall a, a <> d + r -> m' a = m a)).
+Proof. exact strnterminate_s_spec. Qed.
+Print Assumptions C03_strnterminate_s.
 
 Theorem C03_cfg_repo_wf : wf_cfg cfg_repo.
 Proof. exact wf_cfg_repo. Qed.
